@@ -176,6 +176,50 @@ def gen_plan(rng, idx, fault_population=False):
     return plan
 
 
+def small_graph_plans(nfiles, start_idx):
+    """EVERY inclusion graph over `nfiles` files (each ordered pair an edge or
+    not, self-loops included) x every non-empty ordered root choice starting
+    with file 0 or any single root x {no skip, skip one file}.  Complete, not
+    sampled."""
+    import itertools
+    names = ['g%d.tex' % i for i in range(nfiles)]
+    pairs = [(a, b) for a in range(nfiles) for b in range(nfiles)]
+    root_sets = [[r] for r in range(nfiles)]
+    if nfiles > 1:
+        root_sets += [[0, 1], [1, 0], [0, 0]]
+    plans = []
+    idx = start_idx
+    for mask in range(1 << len(pairs)):
+        edges = {i: [] for i in range(nfiles)}
+        for bit, (a, b) in enumerate(pairs):
+            if mask >> bit & 1:
+                edges[a].append(b)
+        for roots in root_sets:
+            for skip in [None] + list(range(nfiles)):
+                files = {}
+                for i, n in enumerate(names):
+                    frs = [docgen.frag('plain', 'w%dq word.\n' % i, [])]
+                    for t in edges[i]:
+                        frs.append(docgen.frag('edge', '\\input{g%d}\n' % t,
+                                               edge=[t]))
+                    files[n] = {'frags': frs}
+                argv = ['--lt-command', 'simlt', '--include']
+                sk = None
+                if skip is not None:
+                    sk = 'g%d\\.tex' % skip
+                    argv += ['--skip', sk]
+                rts = [names[r] for r in roots]
+                argv += ['--output', 'plain'] + rts
+                plans.append({'kind': 'shell', 'argv': argv, 'files': files,
+                              'peer': {'targets': [], 'dup': []},
+                              'names': rts, 'roots': rts, 'skip': sk,
+                              'graph_names': names, 'decoys': [],
+                              'trace_stderr': True, 'exhaustive': True,
+                              'open_budget': 10 * (nfiles + 2), '_index': idx})
+                idx += 1
+    return plans
+
+
 # ---------------------------------------------------------------------
 #   reference model (executable, a dozen lines)
 # ---------------------------------------------------------------------
@@ -410,6 +454,15 @@ def run(seed, tier, budget_s):
             core.cross_validate(MOD, batch, list(zip(plans, _res)),
                                 12 if tier == 'quick' else 60)
         i += step
+    # complete sweep of all small graphs (quick: 1-2 files, thorough: 1-3)
+    exhaustive = {}
+    for nf in ((1, 2) if tier == 'quick' else (1, 2, 3)):
+        if batch.elapsed() > budget_s:
+            break
+        plans = small_graph_plans(nf, 10 ** 6 * nf)
+        for p, r in zip(plans, core.map_plans(MOD, plans, chunk=16)):
+            batch.add(p, r)
+        exhaustive['files_%d' % nf] = len(plans)
     small = [s for s in batch.nontrivial
              if len(json.loads(s)[0]) <= 3]
     rule = ('One case = a seeded inclusion graph over 1-6 in-memory files '
@@ -434,7 +487,13 @@ def run(seed, tier, budget_s):
         'stubbed': ['builtins.open for relative paths (in-memory file system with open budget)',
                     'subprocess.run (proofreader)', 'stderr writes recorded as history events'],
     }
-    extra = {'distinct_shapes_up_to_3_files': len(small)}
+    extra = {'distinct_shapes_up_to_3_files': len(small),
+             'complete_small_graph_sweeps': exhaustive,
+             'complete_small_graph_sweeps_note':
+                 'every adjacency relation over n files (self-loops included) '
+                 'x root choices {each single file, [0,1], [1,0], [0,0]} x '
+                 '{no --skip, --skip of one file}; the seeded population is '
+                 'NOT exhaustive, so coverage.exhaustive stays false'}
     return core.finish(__import__(MOD, fromlist=['x']), batch, rule,
                        assumptions, components, extra)
 
